@@ -797,6 +797,10 @@ func Run(args []string) *rep.Report {
 	enc := json.NewEncoder(f)
 	events := 0
 	for i := si; i < *count; i += sn {
+		if len(r.Divergences) >= 4 {
+			r.AddExtra("skipped_after_divergences", 1) // the verdict is settled; the remaining scenarios would only cost watchdog time
+			continue
+		}
 		sc := Scenario{Seed: *seed*100003 + int64(i), Pubs: 1 + i%2, Ads: 3, Sem: i % 3}
 		if i%4 == 1 {
 			sc.Seg = 1 + (i/4)%2 // a quarter of the runs: segmented syncs (the notification's count covers every segment)
